@@ -150,6 +150,23 @@ func checkDiffOp(w *kit.World, tb kit.Table, a interface{}, op kit.Op, b kit.Row
 			fail("apply.wrong", "column %s: applying diff(a,b)=%s to a=%s gives %s, want b=%s", c.Name, diff[c.Name].Key(), aRow[c.Name].Key(), arow2[c.Name].Key(), want[c.Name].Key())
 		}
 	}
+	// a further difference computed from the model the update set now holds (an update
+	// that restores a) must leave that model alone as well; done last: it changes mu
+	if held := mu.GetModel(tb.Name, uuid); held != nil {
+		heldCopy := kit.DeepCopy(held)
+		back := kit.Row{}
+		for _, name := range changed {
+			back[name] = aRow[name]
+		}
+		ops2, err := kit.DecodeOps(w.S, []kit.Op{{Op: "update", Table: tb.Name, Row: back, Where: []kit.Cond{}}})
+		if err != nil {
+			fail("harness", "op does not decode: %v", err)
+		}
+		_ = mu.AddOperation(w.DBModel, tb.Name, uuid, held, &ops2[0])
+		if !reflect.DeepEqual(held, heldCopy) {
+			fail("difference.input-modified", "computing a second difference from the model held by the update set modified that model:\nbefore %+v\n after %+v", heldCopy, held)
+		}
+	}
 	return len(changed)
 }
 
